@@ -74,6 +74,10 @@ type Type struct {
 	// carrier chain); the container must set it.
 	Logger   bool     `json:"logger,omitempty"`
 	LogEmbed []string `json:"logEmbed,omitempty"`
+	// Logger2 (with Logger): a second logger field `Log2` in the same place, tagged with this
+	// explicit prefix; Log2First: it is declared in front of `Log`.
+	Logger2   string `json:"logger2,omitempty"`
+	Log2First bool   `json:"log2First,omitempty"`
 	// Proc: the component is itself an (unordered, observing) ComponentPostProcessor.
 	Proc bool `json:"proc,omitempty"`
 	// Zero: a field-less (zero-size) provider type: no handle, no custom name, one instance.
@@ -227,6 +231,10 @@ type Instance struct {
 	Preset bool `json:"preset,omitempty"`
 	// Prefilled: before Run the instance's slice points already hold one of their candidates.
 	Prefilled bool `json:"prefilled,omitempty"`
+	// PresetCfg: before Run the application itself has given the instance's scalar configuration
+	// fields a value (int fields 7, string fields "vp"); a field for which nothing is bound
+	// (optional, key absent, no default) keeps it - and it is what validation sees.
+	PresetCfg bool `json:"presetCfg,omitempty"`
 	// SetKey / SetVal: from inside its Init / AfterPropertiesSet callback the instance changes
 	// the configuration (Configure.Set(SetKey, SetVal)): components created later see the new value.
 	SetKey string `json:"setKey,omitempty"`
@@ -295,9 +303,12 @@ type Source struct {
 	Kind string `json:"kind"` // "raw" | "file" | "args" | "sim"
 	Via  string `json:"via"`  // "SetConfigLoader" | "AddConfigLoader" | "SetConfig" | "AddLoaders"
 	// OrderClass/Order for "sim" loaders.
-	OrderClass string         `json:"orderClass,omitempty"`
-	Order      int            `json:"order,omitempty"`
-	Doc        map[string]any `json:"doc,omitempty"`
+	OrderClass string `json:"orderClass,omitempty"`
+	Order      int    `json:"order,omitempty"`
+	// Order2: what the ("sim") loader's Order() answers once Run has returned, i.e. when the
+	// configuration is initialised a second time (a loader whose order is settled late).
+	Order2 *int           `json:"order2,omitempty"`
+	Doc    map[string]any `json:"doc,omitempty"`
 	// Fault: "", "error", "empty", "garbage", "missing", "isdir"
 	Fault string `json:"fault,omitempty"`
 	// Group: consecutive sources with the same non-zero Group and the same Via are passed to
